@@ -270,6 +270,53 @@ GEN.update({
 })
 
 
+# ---- round 4 (continued): JWT decision logic (clock, RawJWT accessors, header map abstract), key-id bookkeeping, constructors
+_R4 = {}
+# ---------------- round 4: JWT decision logic
+_SPB = "google.golang.org/protobuf/types/known/structpb"
+_RAW = "(*jwt.RawJWT)."
+def _opq(fn, pairs):
+    r = []
+    for callee, nm in pairs:
+        r += ["-opaque", "%s:%s=%s" % (fn, callee, nm)]
+    return r
+_R4["GlueJwt"] = ["-ns", "TinkVerif.Gen.GlueJwt", "-pkg", "jwt", "-sub", "Jwt", "-recv", "Validator",
+    "-funcs", "validateFieldPresence,validateTimestamps,validateTypeHeader,validateIssuer,validateAudiences,Validate,validateKIDInHeader,validateHeader",
+    "-abs", "time.Time=Time", "-abs", _M + "jwt.RawJWT=Raw", "-abs", _SPB + ".Struct=Hdr", "-abs", "map[string]*" + _SPB + ".Value=Fields"] \
+    + _opq("validateTimestamps", [("time.Now", "now"), ("(time.Time).IsZero", "isZero"), ("(time.Time).Add", "add"), ("(time.Time).After", "after"),
+        (_RAW + "HasExpiration", "hasExp"), (_RAW + "ExpiresAt", "expiresAt"), (_RAW + "HasNotBefore", "hasNbf"), (_RAW + "NotBefore", "notBefore"),
+        (_RAW + "IssuedAt", "issuedAt")]) \
+    + _opq("validateTypeHeader", [(_RAW + "HasTypeHeader", "hasTyp"), (_RAW + "TypeHeader", "typ")]) \
+    + _opq("validateIssuer", [(_RAW + "HasIssuer", "hasIss"), (_RAW + "Issuer", "iss")]) \
+    + _opq("validateAudiences", [(_RAW + "HasAudiences", "hasAud"), (_RAW + "Audiences", "auds")]) \
+    + _opq("validateKIDInHeader", [("headerStringField", "strField")]) \
+    + _opq("validateHeader", [("headerStringField", "strField"), ("(*" + _SPB + ".Struct).GetFields", "fields")])
+
+# ---------------- round 4: id requirements, manager construction, constructors with parameter arithmetic
+_R4["GlueIdReq"] = ["-ns", "TinkVerif.Gen.GlueIdReq",
+    "-pkg", "internal/protoserialization", "-sub", "KeySer", "-recv", "KeySerialization",
+    "-funcs", "OutputPrefixType,HasIDRequirement,IDRequirement,NewKeySerialization", "-consts", "tinkpb.OutputPrefixType_RAW",
+    "-pkg", "internal/protoserialization", "-sub", "Fallback", "-recv", "FallbackProtoKey", "-funcs", "IDRequirement",
+    "-pkg", "keyset", "-sub", "ManagerNew", "-funcs", "NewManagerFromHandle",
+    "-record", "keyset.entry=fixedID", "-record", "keyset.Entry=keyID", "-record", "tink_go_proto.Keyset_Key=KeyId,OutputPrefixType",
+    "-consts", "tinkpb.OutputPrefixType_RAW", "-opaque", "NewManagerFromHandle:fromKeysetEntries=fromEntries",
+    "-region", r"entryIdRequirement=keysetToEntries|^keyID := protoKey.GetKeyId\(\)|^if protoKey.GetOutputPrefixType\(\) == |keyID"]
+_R4["GlueStreamNew"] = ["-ns", "TinkVerif.Gen.GlueStreamNew", "-pkg", "streamingaead/subtle", "-sub", "StreamNew",
+    "-funcs", "NewAESGCMHKDF,NewAESCTRHMAC",
+    "-consts", "AESGCMHKDFNoncePrefixSizeInBytes,AESGCMHKDFTagSizeInBytes,AESCTRHMACNoncePrefixSizeInBytes",
+    "-opaque", "NewAESGCMHKDF:aead/subtle.ValidateAESKeySize=validAESKeySize", "-opaque", "NewAESCTRHMAC:aead/subtle.ValidateAESKeySize=validAESKeySize",
+    "-opaque", "NewAESCTRHMAC:subtle.GetHashDigestSize=digestSize"]
+_R4["GlueHkdfPrf"] = ["-ns", "TinkVerif.Gen.GlueHkdfPrf", "-pkg", "prf/subtle", "-sub", "HkdfPrf", "-funcs", "NewHKDFPRF,ValidateHKDFPRFParams",
+    "-consts", "minHKDFKeySizeInBytes", "-abs", "func() hash.Hash=HashFn",
+    "-opaque", "NewHKDFPRF:subtle.GetHashFunc=getHashFunc", "-opaque", "ValidateHKDFPRFParams:subtle.GetHashFunc=getHashFunc"]
+_R4["GlueHmacNew"] = ["-ns", "TinkVerif.Gen.GlueHmacNew", "-pkg", "internal/mac/hmac", "-sub", "HmacNew", "-funcs", "ValidateHMACParams,New",
+    "-consts", "minKeySizeInBytes,minTagSizeInBytes", "-abs", "func() hash.Hash=HashFn",
+    "-opaque", "New:subtle.GetHashFunc=getHashFunc", "-opaque", "ValidateHMACParams:subtle.GetHashDigestSize=digestSize"]
+
+_R4_OWNERS = {"GlueJwt": ["C05", "C09"], "GlueIdReq": ["C11", "C20"], "GlueStreamNew": ["C07"], "GlueHkdfPrf": ["C15"], "GlueHmacNew": ["C01", "C04"]}
+GEN.update({n: {"owner": _R4_OWNERS[n], "tool": "gluetr", "args": a} for n, a in _R4.items()})
+
+
 def _strip_comments(s):
     import re
     return re.sub(r"/-.*?-/", "", s, flags=re.S)
